@@ -102,11 +102,20 @@ pub fn log_out(b: u8) {
 pub fn log_end(fin: Option<bool>) {
     shm().push(&[R_END, match fin { None => 0, Some(false) => 1, Some(true) => 2 }]);
 }
+/// Allocation-free (may be called from inside the allocator).
 pub fn log_note(s: &str) {
-    let mut v = vec![R_NOTE];
-    v.extend_from_slice(&(s.len() as u32).to_le_bytes());
-    v.extend_from_slice(s.as_bytes());
-    shm().push(&v);
+    let sh = shm();
+    let len = sh.len_ref().load(Ordering::Relaxed);
+    if len + s.len() + 64 > SHM_SIZE - 16 {
+        unsafe { libc::_exit(EXIT_LOG_FULL) }
+    }
+    let mut hdr = [R_NOTE, 0, 0, 0, 0];
+    hdr[1..5].copy_from_slice(&(s.len() as u32).to_le_bytes());
+    unsafe {
+        std::ptr::copy_nonoverlapping(hdr.as_ptr(), sh.base.add(16 + len), 5);
+        std::ptr::copy_nonoverlapping(s.as_ptr(), sh.base.add(16 + len + 5), s.len());
+    }
+    sh.len_ref().store(len + 5 + s.len(), Ordering::SeqCst);
 }
 pub fn log_panic(s: &str) {
     let mut v = vec![R_PANIC];
